@@ -216,6 +216,7 @@ void backend () {
   int nb;
   int i;
   error_context_t econ;
+  volatile int startup_step = 0;	/* start-up code already done (survives the longjmp of an error) */
 
   opt_info (1, "Entering backend loop.");
 
@@ -263,15 +264,26 @@ void backend () {
   /* do initial timer tick (initialize current_time and allow LPC code to access time).
    * This is always done even if no timer is started, so that current_time is valid.
    */
-  call_heart_beat ();
+  /* (done below, once the recovery point is set: a heart_beat() raising an error in the initial tick
+   * would otherwise longjmp() into the not yet initialised econ.context) */
 
   /* Recovery point of uncaught errors in the loop below. The console user is connected only on the first
    * pass: after an error, init_console_user(0) must not run again (the console user already exists, so
    * new_interactive() refuses and master_ob->interactive is NULL). */
   if (setjmp (econ.context))
     restore_context (&econ);
-  else if (MAIN_OPTION(console_mode))
-    init_console_user(0);
+  /* every start-up step runs exactly once, also when the previous one ended in an error */
+  if (startup_step == 0)
+    {
+      startup_step = 1;
+      call_heart_beat ();
+    }
+  if (startup_step == 1)
+    {
+      startup_step = 2;
+      if (MAIN_OPTION(console_mode))
+        init_console_user(0);
+    }
 
   while (1)
     {
